@@ -77,7 +77,8 @@ def write_replay(world, prop, case, failure, tier, verif_seed, scratch, reproduc
         "failure": {k: failure.get(k) for k in ("op", "op_id", "expected", "observed", "detail")},
         "reproduced": reproduced,
     })
-    path = os.path.join(rdir, "%s-%s-%d.json" % (prop, failure["clause"].split(".", 1)[-1], case.get("run_seed", 0)))
+    tag = kernel.digest_of([failure["clause"], failure.get("signature"), case.get("spec"), case.get("ops")])[:8]
+    path = os.path.join(rdir, "%s-%s-%d-%s.json" % (prop, failure["clause"].split(".", 1)[-1], case.get("run_seed", 0), tag))
     with open(path, "w") as fh:
         json.dump(doc, fh, indent=1, sort_keys=True, default=kernel._default)
         fh.write("\n")
@@ -255,7 +256,8 @@ def run_check(world, prop, tier, verif_seed, level, rule, assumptions, scale=1.0
         if dup is not None:
             # same clause and same minimised signature as a group already reported
             dup["runs_failing"] += len(set(i_ for i_, _ in members))
-            os.remove(path)
+            if path != dup.get("replay") and os.path.exists(path):
+                os.remove(path)
         elif kf is not None:
             known_hits.append(dict(entry, what=kf.get("what")))
             os.remove(path)  # known findings keep their committed description, not a fresh replay each run
@@ -278,6 +280,7 @@ def run_check(world, prop, tier, verif_seed, level, rule, assumptions, scale=1.0
         c = world.gen_case(s)
         samples.append({"index": s["index"], "run_seed": s["seed"], "mode": s.get("mode"), "ops": c["ops"][:25], "n_ops": len(c["ops"]), "faults": c.get("faults", [])[:10], "catalogue_summary": world.catalogue_summary(c) if hasattr(world, "catalogue_summary") else None})
     reach_lost = [k for k in getattr(world, "EXPECTED_PROBES", {}).get(prop, []) if probes.get(k, 0) == 0]
+    reach_lost += [k for k in getattr(world, "EXPECTED_STATS", {}).get(prop, []) if stats.get(k, 0) == 0]
     for k in reach_lost:
         print("REACH-LOST seam=%s" % k)
     coverage = {
@@ -307,6 +310,9 @@ def run_check(world, prop, tier, verif_seed, level, rule, assumptions, scale=1.0
         "unminimised_failure_groups": skipped_groups,
         "failures_of_other_properties_seen": dict(other_prop),
         "build": dict(build.repo_head(), sha256_of_sources=build.source_digest(scratch)),
+        "scale": scale,
+        "partial_run": scale != 1.0,
+        "overrides": {k: os.environ[k] for k in ("VERIF_SCALE", "VERIF_DET_SEEDS", "VERIF_MAX_MINIMISE", "VERIF_WALL_CAP", "VERIF_WORKERS", "VERIF_REPO", "VERIF_RUN_CAP") if os.environ.get(k) and not (k == "VERIF_SCALE" and scale == 1.0)},
     }
     if hasattr(world, "coverage_extra"):
         coverage.update(world.coverage_extra(prop, stats, probes))
@@ -319,5 +325,7 @@ def run_check(world, prop, tier, verif_seed, level, rule, assumptions, scale=1.0
     for v in violations:
         print("VIOLATION property=%s replay=%s" % (prop, v["replay"]))
         print("  clause=%s signature=%s failing_runs=%d minimised=%s" % (v["clause"], v["signature"], v["runs_failing"], v["minimised"]))
+    if scale != 1.0:
+        print("NOTE partial run: --scale %s (development aid); the registered commands run at scale 1" % scale)
     print("%s %s: %d runs, %d steps, %d distinct digests, %d non-trivial, %d violation group(s), %d known, %.1fs" % (prop, tier, n, steps, len(digests), len(nontrivial_digests), len(violations), len(known_hits), wall))
     return 1 if violations else 0
